@@ -202,6 +202,15 @@ func (st *State) exec(fr *Frame, in ssa.Instruction) bool {
 	case *ssa.FieldAddr:
 		base := st.val(fr, x.X)
 		p := st.asPtr(base)
+		if ct := e.P.canonT(p.T); ct != p.T {
+			// a field of an instantiated generic struct: the object lives in the layout of the generic type
+			cp := *p
+			cp.T = ct
+			if cp.Path == "" {
+				cp.RootT = ct
+			}
+			p = &cp
+		}
 		stt := p.T.Underlying().(*types.Struct)
 		f := stt.Field(x.Field)
 		if p.Kind != PObj {
@@ -383,10 +392,17 @@ func (st *State) doReturn(fr *Frame, res []Val, pos token.Pos) bool {
 func packResults(e *Engine, t types.Type, res []Val) Val {
 	if len(res) == 1 {
 		r := res[0]
+		if _, isTuple := t.(*types.Tuple); !isTuple && t != nil {
+			r = e.unboxInst(t, r)
+		}
 		return r
 	}
 	v := Val{T: t}
-	for _, r := range res {
+	tt, _ := t.(*types.Tuple)
+	for i, r := range res {
+		if tt != nil && i < tt.Len() {
+			r = e.unboxInst(tt.At(i).Type(), r)
+		}
 		v.C = append(v.C, r.C...)
 	}
 	if len(res) > 0 && res[0].P != nil {
@@ -944,4 +960,39 @@ func (st *State) execPanic(fr *Frame, x *ssa.Panic) bool {
 	// explicit panic: the path ends abnormally; must be unreachable unless the contract allows it
 	st.oblige("safety", "panic", st.e.curProps, "false", x.Pos())
 	return false
+}
+
+// Values crossing into the body of a generic function that was instantiated with a concrete type argument: the
+// body is verified once with its type parameter as an uninterpreted one-leaf type, so a two-leaf argument (an
+// interface such as error) travels as the injective pairing of its leaves, and comes back out the same way.
+func (e *Engine) boxInst(paramT types.Type, v Val) Val {
+	if _, isTP := paramT.(*types.TypeParam); !isTP {
+		return v
+	}
+	switch len(v.C) {
+	case 1:
+		return v
+	case 2:
+		return Val{T: paramT, C: []string{fmt.Sprintf("(pair %s %s)", v.C[0], v.C[1])}}
+	}
+	e.unsupportedf("argument of type %s for type parameter %s", v.T, paramT)
+	return v
+}
+
+func (e *Engine) unboxInst(callerT types.Type, v Val) Val {
+	if _, isTP := v.T.(*types.TypeParam); !isTP || v.T == nil {
+		return v
+	}
+	if _, alsoTP := callerT.(*types.TypeParam); alsoTP {
+		return v
+	}
+	want := len(e.flatten(callerT))
+	if want == len(v.C) {
+		return v
+	}
+	if want == 2 && len(v.C) == 1 {
+		return Val{T: callerT, C: []string{fmt.Sprintf("(pair_fst %s)", v.C[0]), fmt.Sprintf("(pair_snd %s)", v.C[0])}}
+	}
+	e.unsupportedf("result of type parameter type %s received as %s", v.T, callerT)
+	return v
 }
